@@ -341,6 +341,8 @@ def model_st(draw, cplx=None, max_modes=6, max_sites=4, beta_lo=0.1, beta_hi=200
     m = {"cplx": bool(cplx), "sites": sites, "terms": terms, "order_spins": osp, "symm": symm, "beta": beta}
     if rep:
         m["repeat"] = True
+    if draw(st.sampled_from([False, False, False, True])):
+        m["early"] = True
     return m
 
 
@@ -460,6 +462,8 @@ def special_model_st(draw, cplx=None, max_modes=4, beta_lo=0.1, beta_hi=200.0, s
     m = {"cplx": bool(cplx), "sites": sites, "terms": terms, "order_spins": 0, "symm": symm, "beta": beta, "family": kind}
     if draw(st.integers(0, 3)) == 0:
         m["repeat"] = True
+    if draw(st.sampled_from([False, False, False, True])):
+        m["early"] = True
     return m
 
 
